@@ -115,6 +115,12 @@ func checkC02(c *Ctx) {
 	c2ConfigNames(c, "R2.17")
 	c.Rule("R2.18", "layout-based time encoders format with the documented layout on both the AppendTimeLayout and the time.Format path", 3)
 	c2Layouts(c, "R2.18")
+	c.Rule("R2.19", "derived slog handlers never share a slice tail with their parent (a sibling derived later would rename the groups an earlier handler's fields are logged under)", 0)
+	for _, m := range []string{"WithAttrs", "WithGroup"} {
+		if fn := c.Method(SlogPath, "Handler", m); c.Anchor("R2.19", "zapslog.Handler."+m, fn != nil) {
+			c7Appends(c, "R2.19", fn)
+		}
+	}
 	c.Rule("R2.14", "short caller representation: everything after the penultimate '/', the whole path with fewer than two separators", 1)
 	c2TrimmedPath(c, "R2.14")
 	c.Rule("R2.13", "what decodes must first parse: every path of every encoder method writes exactly one well-formed member / element / entry (token grammar)", 20)
